@@ -257,8 +257,12 @@ class PythonRegex(regex.Regex):
     def _preprocess_negation(bracket_content):
         if not bracket_content or bracket_content[0] != "^":
             return bracket_content
-        # We inverse everything
-        return [x for x in ESCAPED_PRINTABLES if x not in bracket_content]
+        # We inverse everything (the leading ^ is not part of the set)
+        excluded = bracket_content[1:]
+        res = [x for x in ESCAPED_PRINTABLES if x not in excluded]
+        if "\n" not in excluded:
+            res.append("\n")
+        return res
 
     @staticmethod
     def _insert_or(l_to_modify):
